@@ -212,6 +212,8 @@ def run(ctx):
             wl.append('wsroute %s %s %s %s' % ('-' if host is None else hx(host), hx(uri), enc(default), sarg))
             wmeta.append((host, uri, default, subs))
         wm, wim = ctx.both(wl)
+        # the tokio runtime's call_websocket_handler: same cases, same rule
+        ctx.tokio_twin(wl, wm, 'ws-route-mismatch-tokio', what='tokio: WebSocket upgrade not dispatched by the routing rule')
         for line, me, a, b in zip(wl, wmeta, wm, wim):
             want = oracle(*me)
             ctx.count('ws:' + b.split(':')[0])
